@@ -843,9 +843,33 @@ def str_method(interp, s, name, args, kwargs):
         ctx.taint(f"str.{name} on an unbounded symbolic string is uninterpreted")  # a counter-model here proves nothing
         interp.used_models.add(f"str.{name}: uninterpreted, length-preserving (ASCII)")
         return sym.sstr(r)
+    if name in ("strip", "lstrip", "rstrip") and args:
+        # strip(chars) with a concrete character set: s = a ++ r ++ b with a, b over the set and r not starting / ending in it
+        cs = mk(args[0])
+        if not (isinstance(cs, str) and cs and len(args) == 1) or chars is not None:
+            raise Unsupported("strip(chars) with a symbolic character set or on a bounded string")
+        zs = zstr(s)
+        tag = name + "_" + "".join(f"{ord(c):02x}" for c in sorted(set(cs)))
+        a = sym.ufun("str_" + tag + "_left", z3.StringSort(), z3.StringSort())(zs)
+        b = sym.ufun("str_" + tag + "_right", z3.StringSort(), z3.StringSort())(zs)
+        r = sym.ufun("str_" + tag, z3.StringSort(), z3.StringSort())(zs)
+        SET = z3.Union(*[z3.Re(z3.StringVal(c)) for c in sorted(set(cs))]) if len(set(cs)) > 1 else z3.Re(z3.StringVal(cs[0]))
+        ctx.assume(zs == z3.Concat(a, r, b))
+        if name in ("strip", "lstrip"):
+            ctx.assume(z3.InRe(a, z3.Star(SET)))
+            ctx.assume(z3.Or(r == z3.StringVal(""), z3.Not(z3.InRe(z3.SubString(r, 0, 1), SET))))
+        else:
+            ctx.assume(a == z3.StringVal(""))
+        if name in ("strip", "rstrip"):
+            ctx.assume(z3.InRe(b, z3.Star(SET)))
+            ctx.assume(z3.Or(r == z3.StringVal(""), z3.Not(z3.InRe(z3.SubString(r, z3.Length(r) - 1, 1), SET))))
+            if name == "strip":
+                ctx.assume(z3.Implies(r == z3.StringVal(""), b == z3.StringVal("")))
+        else:
+            ctx.assume(b == z3.StringVal(""))
+        interp.used_models.add("str.strip/lstrip/rstrip(chars): decomposition s = set* ++ r ++ set* for a concrete character set")
+        return sym.sstr(r)
     if name in ("strip", "lstrip", "rstrip"):
-        if args:
-            raise Unsupported("strip(chars)")
         if chars is not None:
             lo, hi = 0, len(chars)
             if name in ("strip", "lstrip"):
